@@ -124,7 +124,8 @@ def build_steps(g):
             steps.append((docs.any_matcher([gp], ph), [fp], json.loads(ph), False))
             set_path(cur, fp, json.loads(ph))
         elif k < 0.68 and docs.go_type(v):
-            steps.append((docs.type_matcher([gp], docs.go_type(v)), [fp], docs.type_placeholder(v), False))
+            # (match.Type[any] accepts every value; its placeholder still names the value's own type)
+            steps.append((docs.type_matcher([gp], 'any' if r.random() < 0.3 else docs.go_type(v)), [fp], docs.type_placeholder(v), False))
             set_path(cur, fp, docs.type_placeholder(v))
         elif k < 0.76 and docs.go_type(v) and docs.go_type(v) != 'string':
             # paths of one matcher take effect left to right: the second `gp` finds the string
